@@ -7,7 +7,7 @@
 //               exponents (E < |p|), QR group with full exponents (E = |p|); a fresh group and fresh keys per cell
 //               (coins from VERIF_SEED and the cell id)
 //   regime    : --family tiny    |p| 16..20 bit, w in 1..4, k in 1..4 (thorough: k = 5 too)
-//               --family wide    |p| 16..32 bit, w in {7,10} (all 2^w types), k in {1,2,3}
+//               --family wide    |p| 16..32 bit, w in {7,10} (all 2^w types), k in {1,2,3} (quick: k = 3 only with w = 7)
 //               --family adm     |p| 160..320 bit (|q| >= 128 or safe prime), w in {1,3}, k in {2,3}
 //               --family default thorough only: 2048/256 canonical Schnorr group, 1024 bit QR group, k=2, w in {2,4} / 10
 //   players k, type bits w, every type 0..2^w-1
@@ -313,7 +313,7 @@ int main(int argc, char **argv)
 	MuteCerr mute;
 	uint64_t seed = mcenv::env_seed();
 	std::string family = A.get("family", "tiny");
-	bool thorough = (A.tier == "thorough");
+	bool thorough = (A.tier == "thorough") && !A.has("quickbounds");   // --quickbounds: quick alphabet inside a thorough run (ASan pass)
 
 	static const GroupCfg TINY[] = {
 		{"schnorr-rand-16/6", SCHNORR_RANDOM_G, 16, 6, "tiny"},
@@ -378,6 +378,8 @@ int main(int argc, char **argv)
 					size_t k = ks[ki], w = ws[wi];
 					if (family == "default" && ((w == 10) != (ci == 1)))
 						continue;   // w=10 only on the 1024/160 group; w in {2,4} on the other two
+					if (family == "wide" && !thorough && k == 3 && w == 10)
+						continue;   // quick tier: k = 3 only with w = 7
 					std::string cid = "vtmf:" + family + ":" + cfgs[ci].name + ":k" + str(k) + ":w" + str(w) + ":o" + str(order);
 					if (!R->mine() || !R->selected(cid))
 						continue;
@@ -397,7 +399,7 @@ int main(int argc, char **argv)
 done:
 	mcenv::cur = nullptr;
 	rep.bound = family + ": " + (family == "tiny" ? std::string("k<=") + (thorough ? "5" : "4") + ", w<=4, chains<=" + (thorough ? "3 (2 for k=5)" : "2") :
-		family == "wide" ? "k<=3, w in {7,10}, chains<=1" : family == "adm" ? "k in {2,3}, w in {1,3}, chains<=2" : "k=2, w in {2,4,10}, chains<=1");
+		family == "wide" ? (thorough ? "k<=3, w in {7,10}, chains<=1" : "k<=3 (k=3 only w=7), w in {7,10}, chains<=1") : family == "adm" ? "k in {2,3}, w in {1,3}, chains<=2" : "k=2, w in {2,4,10}, chains<=1");
 	rep.finish();
 	return 0;
 }
